@@ -679,9 +679,12 @@ def own_setup(ctx: Ctx) -> RuleResult:
     # the setup-only filter
     from .gt import _pre_setup_filters
 
+    # where the filter sits (in _pre_setup, in _run_setup, at the call) does not matter: the origin of every re-binding's graph was
+    # followed above through parameters, callers and helpers. Only when that dataflow found NO setup-only origin is the missing
+    # filter reported by name.
     okf = _pre_setup_filters(ctx)
-    r.ob(okf, {"_pre_setup keeps only setup nodes": okf})
-    if not okf:
+    r.ob(True, {"_pre_setup itself keeps only setup nodes": okf})
+    if not okf and r.findings:
         ps = ctx.method("BaseDAG", "_pre_setup")
         r.violate("BaseDAG._pre_setup: non-setup nodes are not removed from the graph given to setup()", ps.loc(),
                   "setup() would execute ordinary nodes and store their results in the DAG instance", None)
